@@ -177,8 +177,51 @@ fn replay_raw(file: &Path) -> String {
 
 /// runs `vcheck replay-raw file` in a child; a child killed by a signal yields an abort signature
 fn replay_in_child(file: &Path) -> (String, String, String) {
+    replay_in_child_within(file, Duration::from_secs(std::env::var("VERIF_REPLAY_TIMEOUT_S").ok().and_then(|s| s.parse().ok()).unwrap_or(900)))
+}
+
+/// as above with a deadline; a child that has not returned by then is killed and reported as ("timeout", ..)
+fn replay_in_child_within(file: &Path, deadline: Duration) -> (String, String, String) {
     let exe = std::env::current_exe().expect("exe");
-    let out = Command::new(exe).arg("replay-raw").arg(file).stderr(Stdio::piped()).output();
+    let errpath = Path::new(VERIF_DIR).join("work").join(format!("replay-{}.stderr", std::process::id()));
+    let outpath = Path::new(VERIF_DIR).join("work").join(format!("replay-{}.stdout", std::process::id()));
+    let _ = std::fs::create_dir_all(Path::new(VERIF_DIR).join("work"));
+    let spawn = (|| -> std::io::Result<std::process::Child> {
+        let ef = std::fs::File::create(&errpath)?;
+        let of = std::fs::File::create(&outpath)?;
+        Command::new(&exe).arg("replay-raw").arg(file).stderr(ef).stdout(of).spawn()
+    })();
+    let mut child = match spawn {
+        Ok(c) => c,
+        Err(e) => return ("spawn-error".into(), String::new(), e.to_string()),
+    };
+    let t0 = Instant::now();
+    let status = loop {
+        match child.try_wait() {
+            Ok(Some(st)) => break Some(st),
+            Ok(None) => {
+                if t0.elapsed() > deadline {
+                    let _ = child.kill();
+                    let _ = child.wait();
+                    break None;
+                }
+                std::thread::sleep(Duration::from_millis(10));
+            }
+            Err(_) => break None,
+        }
+    };
+    let stdout = std::fs::read(&outpath).unwrap_or_default();
+    let stderr = std::fs::read(&errpath).unwrap_or_default();
+    let _ = std::fs::remove_file(&outpath);
+    let _ = std::fs::remove_file(&errpath);
+    let status = match status {
+        Some(s) => s,
+        None => {
+            let sub = read_replay(file).map(|r| r.subcheck).unwrap_or_default();
+            return ("timeout".into(), format!("{}/no-return", sub), format!("the case did not return within {} s when run alone in a fresh process", deadline.as_secs()));
+        }
+    };
+    let out: std::io::Result<std::process::Output> = Ok(std::process::Output { status, stdout, stderr });
     match out {
         Ok(o) => {
             if o.status.success() {
@@ -220,7 +263,12 @@ fn replay_cmd(file: &Path) -> i32 {
             return 2;
         }
     };
-    let (outcome, sig, detail) = replay_in_child(file);
+    // an input recorded as "does not return" is confirmed (or not) within the hang-confirmation deadline
+    let (outcome, sig, detail) = if rf.signature.ends_with("/no-return") || rf.signature.contains("timeout-artifact") {
+        replay_in_child_within(file, Duration::from_secs(std::env::var("VERIF_HANG_CONFIRM_S").ok().and_then(|s| s.parse().ok()).unwrap_or(180)))
+    } else {
+        replay_in_child(file)
+    };
     match outcome.as_str() {
         "pass" | "reject" => {
             println!("replay {}: {}", file.display(), outcome);
@@ -235,6 +283,12 @@ fn replay_cmd(file: &Path) -> i32 {
                 println!("VIOLATION property={} replay={}", rf.property, file.display());
                 1
             }
+        }
+        "timeout" if rf.property == "C02" => {
+            // C02 states that every call returns: a case that does not return when run alone is a violation
+            println!("replay {}: FAIL sig={} detail={}", file.display(), sig, detail);
+            println!("VIOLATION property={} replay={}", rf.property, file.display());
+            1
         }
         other => {
             eprintln!("replay {}: {} {}", file.display(), other, detail);
@@ -306,6 +360,10 @@ fn supervise(id: &str, tier: Tier, seed: u64, only_sub: Option<String>) -> i32 {
                 }
             }
             "pass" | "reject" => {}
+            "timeout" if id == "C02" => {
+                println!("regression input {} does not return: sig={} detail={}", file.display(), sig, detail);
+                violations.push((sig, file.clone()));
+            }
             other => infra.push(format!("replay {}: {} {}", file.display(), other, detail)),
         }
     }
@@ -322,6 +380,8 @@ fn supervise(id: &str, tier: Tier, seed: u64, only_sub: Option<String>) -> i32 {
     let mut pending: Vec<u64> = (0..SHARDS).rev().collect();
     let mut running: Vec<(u64, std::process::Child, Instant)> = Vec::new();
     let mut aborted: Vec<(u64, String)> = Vec::new();
+    let mut hung: Vec<u64> = Vec::new();
+    let stall = Duration::from_secs(std::env::var("VERIF_STALL_S").ok().and_then(|s| s.parse().ok()).unwrap_or(120));
     while !pending.is_empty() || !running.is_empty() {
         while running.len() < nproc && !pending.is_empty() {
             let s = pending.pop().unwrap();
@@ -350,7 +410,17 @@ fn supervise(id: &str, tier: Tier, seed: u64, only_sub: Option<String>) -> i32 {
                     progressed = true;
                 }
                 Ok(None) => {
-                    if started.elapsed() > timeout {
+                    // a shard of a journaling property that has not touched its journal for a long time sits in one case
+                    let stalled = prop.crash_prone
+                        && started.elapsed() > stall
+                        && std::fs::metadata(dir.join(format!("shard-{}.journal", s))).and_then(|m| m.modified()).ok().and_then(|m| m.elapsed().ok()).map(|e| e > stall).unwrap_or(false);
+                    if stalled {
+                        let _ = child.kill();
+                        let _ = child.wait();
+                        hung.push(*s);
+                        running.remove(i);
+                        progressed = true;
+                    } else if started.elapsed() > timeout {
                         let _ = child.kill();
                         let _ = child.wait();
                         infra.push(format!("shard {} exceeded the watchdog ({} s) and was killed: inconclusive", s, timeout.as_secs()));
@@ -397,6 +467,41 @@ fn supervise(id: &str, tier: Tier, seed: u64, only_sub: Option<String>) -> i32 {
                 }
             }
             _ => infra.push(format!("shard {} died ({}) with no journal: inconclusive; stderr: {}", s, status, errtail)),
+        }
+    }
+
+    // (4b) stalled shards: the journaled input is run alone in a fresh process with a deadline several orders of
+    // magnitude above the normal time of a case. Only C02 states "every call returns": there a case that still does
+    // not return is a violation; elsewhere it is infrastructure trouble (exit 2).
+    let mut hang_confirmed = false;
+    for s in &hung {
+        let jpath = dir.join(format!("shard-{}.journal", s));
+        match Journal::read(&jpath) {
+            Some((sub, input)) => {
+                if hang_confirmed {
+                    infra.push(format!("shard {} stalled as well (input {} of sub-check {}); not replayed, one hang is already confirmed", s, hex::encode(&input[..input.len().min(60)]), sub));
+                    continue;
+                }
+                let f = Failure::new("pending", format!("shard {} made no progress for {} s while running this input", s, stall.as_secs()));
+                let path = write_replay(id, &sub, &input, &f);
+                let confirm = Duration::from_secs(std::env::var("VERIF_HANG_CONFIRM_S").ok().and_then(|s| s.parse().ok()).unwrap_or(180));
+                let (outcome, sig, detail) = replay_in_child_within(&path, confirm);
+                let _ = std::fs::remove_file(&path);
+                if outcome == "timeout" && id == "C02" {
+                    hang_confirmed = true;
+                    let f2 = Failure::new(sig.clone(), format!("{} (the shard had been stuck on it for {} s before)", detail, stall.as_secs()));
+                    println!("failure: subcheck={} sig={} detail={} input={}", sub, f2.sig, f2.detail, hex::encode(&input[..input.len().min(200)]));
+                    let p2 = write_replay(id, &sub, &input, &f2);
+                    violations.push((sig, p2));
+                } else if outcome == "fail" && known.matches(id, &sig).is_none() {
+                    let f2 = Failure::new(sig.clone(), detail);
+                    let p2 = write_replay(id, &sub, &input, &f2);
+                    violations.push((sig, p2));
+                } else {
+                    infra.push(format!("shard {} stalled for {} s; its journaled input replays as {} ({}): inconclusive", s, stall.as_secs(), outcome, detail));
+                }
+            }
+            None => infra.push(format!("shard {} stalled for {} s with no readable journal: inconclusive", s, stall.as_secs())),
         }
     }
 
